@@ -23,7 +23,7 @@ RULE = ('generated tagged BAMs (1-3 contigs, 1-4 cells, read-1/read-2/single-end
 ASSUMPTIONS = ['max_fragment_size >= distance between a read and its DS site (the fetch margin must cover it)',
                'get_binned_counts applies its documented default filter (read 1, not duplicate, not qc-fail, DS present) without MAPQ / mp']
 MIN_NONTRIVIAL = {'quick': 150, 'thorough': 8000}
-REQUIRED_MONITORS = ['pipeline:count_runs', 'ret:obtain_counts', 'ret:get_binned_counts', 'oracle:matrix_cells_compared', 'splits:compared', 'lib:non_proper_pairs',
+REQUIRED_MONITORS = ['multibam:count_runs', 'pipeline:count_runs', 'ret:obtain_counts', 'ret:get_binned_counts', 'oracle:matrix_cells_compared', 'splits:compared', 'lib:non_proper_pairs',
                      'lib:sites_on_job_boundary']
 SHARD_TIMEOUT = {'quick': 900, 'thorough': 5400}
 
@@ -34,7 +34,69 @@ def gen_cases(tier, seed):
     # end to end: a simulated library tagged by the real tagger, then counted under several job splits; one count per true molecule
     for j in range(6 if tier == 'quick' else 120):
         cases.append({'kind': 'pipeline', 'j': j, 'seed': seed})
+    # several BAM files handed to one generate_commands / obtain_counts call (supported: alignments_path may be a list)
+    for j in range(10 if tier == 'quick' else 200):
+        cases.append({'kind': 'multibam', 'j': j, 'seed': seed})
     return cases
+
+
+def run_multibam_case(case):
+    from singlecellmultiomics.bamProcessing import bamBinCounts as bbc
+    acc = Acc()
+    r = rng(case['seed'], 'C12', 'multibam', case['j'])
+    bin_size = r.choice([100, 250, 1000])
+    nbam = r.randint(2, 3)
+    expect = Counter()
+    with Scratch('c12m') as dd:
+        bams = []
+        for b in range(nbam):
+            # the same contig names in every file, but different lengths (different references / assemblies / truncated test files)
+            contigs = [('chr1', r.choice([1900, 3100, 6500, 12000]) + r.randint(0, bin_size)), ('chr2', r.choice([900, 2500, 4100]) + r.randint(0, bin_size))]
+            recs = []
+            for k in range(r.randint(15, 60)):
+                tid = r.randrange(2)
+                name, ln = contigs[tid]
+                site = r.choice([r.randrange(0, ln), ln - 1 - r.randint(0, bin_size), r.randrange(max(0, ln - 2 * bin_size), ln)])
+                site = min(max(site, 0), ln - 1)
+                pos = min(site, ln - 31)
+                cell = f'LIB{b}_{r.randint(1, 3)}'          # samples differ between the files
+                recs.append({'name': f'b{b}q{k}', 'flag': 64, 'tid': tid, 'pos': pos, 'mapq': 60, 'cigar': '30M', 'seq': 'A' * 30, 'qual': [30] * 30,
+                             'tags': {'SM': cell, 'DS': site}})
+                b0 = (site // bin_size) * bin_size
+                expect[(name, b0, min(b0 + bin_size, ln), cell)] += 1
+            bams.append(write_bam(os.path.join(dd, f'lib{b}.bam'), contigs, recs))
+        first = None
+        for bpj in (1, 3, 1000):
+            threads = r.choice([1, 1, 2, 4])
+            cmds = list(bbc.generate_commands(bams, bin_size=bin_size, bins_per_job=bpj, min_mq=20, max_fragment_size=500, key_tags=None, dedup=True, kwargs={}))
+            if r.random() < 0.5:
+                r.shuffle(cmds)
+            try:
+                with contextlib.redirect_stdout(io.StringIO()):
+                    res = bbc.obtain_counts(cmds, reference=None, live_update=False, threads=threads)
+            except Exception as ex:
+                acc.violate('obtain_counts-raised:' + type(ex).__name__, f'obtain_counts on {nbam} BAMs raised {ex!r} (bins_per_job={bpj}, threads={threads})', {'bin_size': bin_size})
+                continue
+            acc.evals += 1
+            acc.count('ret:obtain_counts')
+            acc.count('multibam:count_runs')
+            got = Counter()
+            for bin_id, sd in res.items():
+                for sample, n in sd.items():
+                    if n:
+                        got[tuple(bin_id) + (sample,)] += n
+            acc.count('oracle:matrix_cells_compared', len(set(got) | set(expect)))
+            if got != expect:
+                miss, extra = expect - got, got - expect
+                acc.violate('multi-bam-count-differs', f'{nbam} BAMs, bin {bin_size}, bins_per_job {bpj}, threads {threads}: missing {list(miss.items())[:3]} extra {list(extra.items())[:3]} '
+                                                       f'(total {sum(got.values())} expected {sum(expect.values())})', {'bin_size': bin_size, 'bins_per_job': bpj, 'threads': threads})
+            if first is not None and got != first:
+                acc.violate('matrix-depends-on-job-split', f'multi-BAM: bins_per_job={bpj} differs from bins_per_job=1', {'bin_size': bin_size})
+            first = first if first is not None else got
+            acc.count('splits:compared')
+            acc.sigs.add(f"multibam/{case['j']}/{bpj}/{threads}")
+        acc.sample = {'multibam': {'files': nbam, 'bin_size': bin_size, 'expected_total': sum(expect.values())}}
+    return acc
 
 
 def run_pipeline_case(case):
@@ -101,6 +163,8 @@ def run_pipeline_case(case):
 def run_case(case):
     if case.get('kind') == 'pipeline':
         return run_pipeline_case(case)
+    if case.get('kind') == 'multibam':
+        return run_multibam_case(case)
     import pysam
     from singlecellmultiomics.bamProcessing import bamBinCounts as bbc
     acc = Acc()
